@@ -122,6 +122,16 @@ theorem noLost_step {s s' : State} {a : Act} (hL : InvL s) (hS : InvS s) (hI : N
        have := hI h'
        simp [hl, setH, upd, willScan, atWrite] at *
        first | done | grind)
+  | fork =>
+    simp only [step?] at hs
+    split at hs
+    · simp only [Option.some.injEq] at hs; subst hs
+      intro h' hp hcl
+      have h1 := hS.pendLt h'; have h2 := hL.linked h'; have h3 := hL.unlSto h'; have h4 := hL.sto h'
+      have hq := hL.qEmpty
+      simp [qMustBeEmpty] at *
+      first | done | grind
+    · simp at hs
   | eintr w => cases step?_eintr hs; exact hI
   | closeCbs =>
     simp only [step?] at hs
@@ -161,6 +171,12 @@ theorem cbLe_step {s s' : State} {a : Act} (hL : InvL s) (hI : CbLe s) (hs : ste
     repeat' split at hs
     all_goals first | (simp at hs; done) | skip
     all_goals (simp only [Option.some.injEq] at hs; subst hs; intro h'; have := hI h'; simp [setH, upd] at *; first | done | grind)
+  | fork =>
+    simp only [step?] at hs
+    split at hs
+    · simp only [Option.some.injEq] at hs; subst hs
+      intro h'; have := hI h'; simp at *; first | done | grind
+    · simp at hs
   | eintr w => cases step?_eintr hs; exact hI
   | closeCbs =>
     simp only [step?] at hs
@@ -203,6 +219,15 @@ theorem seenOrPending_step {s s' : State} {a : Act} (hS : InvS s) (hI : SeenOrPe
     all_goals first | (simp at hs; done) | skip
     all_goals (simp only [Option.some.injEq] at hs; subst hs; intro t' x' hx' hp hc; have := hI t' x'
                simp [setH, upd, published] at *; first | done | grind)
+  | fork =>
+    simp only [step?] at hs
+    split at hs
+    · simp only [Option.some.injEq] at hs; subst hs
+      intro t' x' hx' hp hc
+      simp [List.getElem?_map] at hx'
+      obtain ⟨y, _, rfl⟩ := hx'
+      simp [published] at hp
+    · simp at hs
   | eintr w => cases step?_eintr hs; exact hI
   | closeCbs =>
     simp only [step?] at hs
@@ -221,7 +246,7 @@ theorem seenOrPending_step {s s' : State} {a : Act} (hS : InvS s) (hI : SeenOrPe
 def critB (h : Nat) (x : Sender) : Bool := x.h == h && (x.pc == .xchg || x.pc == .write || x.pc == .dec)
 
 structure InvB (s : State) : Prop where
-  busyEq : ∀ h, (s.hs h).busy = (s.snd.countP (critB h) : Int)
+  busyEq : ∀ h, (s.hs h).unlinked = false → (s.hs h).busy = (s.snd.countP (critB h) : Int)
   noWrite : ∀ (t : Nat) (x : Sender), s.snd[t]? = some x → x.pc = .write → (s.hs x.h).unlinked = false
 
 theorem countP_set_int (l : List Sender) (t : Nat) (x x' : Sender) (p : Sender → Bool) (h0 : l[t]? = some x) :
@@ -243,7 +268,7 @@ theorem not_crit_of_countP_zero {l : List Sender} {h t : Nat} {x : Sender} (hz :
   have := List.countP_eq_zero.mp hz x (List.mem_of_getElem? h0)
   simpa using this
 
-theorem invB_step {s s' : State} {a : Act} (hL : InvL s) (hI : InvB s) (hs : step? s a = some s') : InvB s' := by
+theorem invB_step {s s' : State} {a : Act} (hL : InvL s) (hS : InvS s) (hI : InvB s) (hs : step? s a = some s') : InvB s' := by
   have hb := hI.busyEq
   have hw := hI.noWrite
   cases a with
@@ -298,7 +323,7 @@ theorem invB_step {s s' : State} {a : Act} (hL : InvL s) (hI : InvB s) (hs : ste
         · intro t' x' hx' hp
           have h1 := hw t' x' hx' hp
           by_cases hh : x'.h = h
-          · have h2 := hb h
+          · have h2 := hb h (hL.cloPc h r (Or.inr hl)).2
             rw [hz] at h2
             have h3 : s.snd.countP (critB h) = 0 := by omega
             have h4 := not_crit_of_countP_zero h3 hx'
@@ -323,6 +348,36 @@ theorem invB_step {s s' : State} {a : Act} (hL : InvL s) (hI : InvB s) (hs : ste
                constructor
                · intro h'; have := hb h'; simp [setH, upd] at *; first | done | grind
                · intro t' x' hx' hp; have := hw t' x' hx' hp; simp [setH, upd] at *; first | done | grind)
+  | fork =>
+    simp only [step?] at hs
+    split at hs
+    next hl =>
+      simp only [Option.some.injEq] at hs; subst hs
+      have hz : ∀ h', (s.snd.map fun x => ({ x with pc := .idle, sent := false } : Sender)).countP (critB h') = 0 := by
+        intro h'; rw [List.countP_eq_zero]; intro a ha
+        simp only [List.mem_map] at ha; obtain ⟨y, _, rfl⟩ := ha; simp [critB]
+      constructor
+      · intro h' hu
+        simp only [hz]
+        by_cases hin : h' ∈ s.handles
+        · simp [hin]
+        · simp only [hin, if_false] at hu ⊢
+          have hq := hL.qEmpty (by simp [hl, qMustBeEmpty])
+          have hge : ¬ h' < s.nh := by
+            intro hlt; have := hL.linked h' hlt hu; simp [hq, hin] at this
+          have h0 : s.snd.countP (critB h') = 0 := by
+            rw [List.countP_eq_zero]; intro a ha
+            obtain ⟨t, ht⟩ := List.getElem?_of_mem ha
+            have := hS.sndLt t a ht
+            simp only [critB, Bool.and_eq_true, beq_iff_eq, Bool.or_eq_true, not_and]
+            intro he hc; subst he
+            exact hge (this (by rcases hc with (hc | hc) | hc <;> simp [hc]))
+          rw [hb h' hu, h0]
+      · intro t' x' hx' hp
+        simp [List.getElem?_map] at hx'
+        obtain ⟨y, _, rfl⟩ := hx'
+        simp at hp
+    · simp at hs
   | eintr w => cases step?_eintr hs; exact hI
   | closeCbs =>
     simp only [step?] at hs
